@@ -105,6 +105,10 @@ var selfMutants = []selfMutant{
 	{Rule: "R-INPUT", File: "input.go", Silent: true, Old: "	if z.err != nil {\n		return z.err\n	} else if len(z.buf)-1 <= z.pos+pos {\n		return io.EOF\n	}\n	return nil\n}", New: "	switch {\n	case z.err != nil:\n		return z.err\n	case z.atEnd(pos):\n		return io.EOF\n	}\n	return nil\n}\n\nfunc (z *Input) atEnd(i int) bool {\n	return len(z.buf)-1 <= z.pos+i\n}", Why: "PeekErr through a predicate helper and a tagless switch (behaviour-preserving)"},
 	{Rule: "R-WALK", File: "js/walk.go", Silent: true, Old: "	case *FuncDecl:\n		Walk(v, &n.Body)\n		Walk(v, &n.Params)\n", New: "	case *FuncDecl:\n		walkFuncParts(v, &n.Body, &n.Params)\n", Why: "function parts walked by a helper that receives their addresses (behaviour-preserving)"},
 	{Rule: "R-JSONKEY", File: "json/parse.go", Silent: true, Old: "func (p *Parser) State() State {\n	return p.state[len(p.state)-1]\n}", New: "func (p *Parser) State() State {\n	return p.top()\n}\n\nfunc (p *Parser) top() State {\n	return p.state[len(p.state)-1]\n}", Why: "State() through an accessor of the top of the stack (behaviour-preserving)"},
+	// callback form of the traversal (walkEquivalents / cbParam): the visitor reaches the helper inside a closure
+	{Rule: "R-WALK", File: "js/walk.go", Silent: true, Old: "	case *AST:\n		Walk(v, &n.BlockStmt)\n", New: "	case *AST:\n		eachASTChild(n, func(c INode) {\n			Walk(v, c)\n		})\n", Why: "children handed to a callback that walks them (behaviour-preserving)"},
+	{Rule: "R-WALKORDER", File: "js/walk.go", Silent: true, Old: "	case *AST:\n		Walk(v, &n.BlockStmt)\n", New: "	case *AST:\n		eachASTChild(n, func(c INode) {\n			Walk(v, c)\n		})\n", Why: "children handed to a callback that walks them (behaviour-preserving) "},
+	{Rule: "R-WALKORDER", File: "js/walk.go", Old: "	if v = v.Enter(n); v == nil {\n		return\n	}\n\n	defer v.Exit(n)\n\n	switch n := n.(type) {\n	case *AST:\n		Walk(v, &n.BlockStmt)\n", New: "	w := v.Enter(n)\n	if w == nil {\n		return\n	}\n	v, w = w, v\n\n	defer v.Exit(n)\n\n	switch n := n.(type) {\n	case *AST:\n		eachASTChild(n, func(c INode) {\n			Walk(w, c)\n		})\n", Why: "callback walks the children with the visitor Walk was called with, not the one Enter returned"},
 	// tables computed by an initialiser closure (ssaeval.go) and tables written after initialisation (roglobal.go)
 	{Rule: "R-CURSOR", File: "js/lex.go", Only: "js", Silent: true, Old: "var identifierTable = [256]bool{\n", New: "var identifierTable = func() (t [256]bool) {\n	t = identifierStartTable\n	for c := byte('0'); c <= '9'; c++ {\n		t[c] = true\n	}\n	return\n}()\n\nvar identifierTableLit = [256]bool{\n", Why: "identifier table computed by its initialiser from the start table (behaviour-preserving)"},
 	{Rule: "R-CURSOR", File: "js/lex.go", Only: "js", Old: "var identifierTable = [256]bool{\n", New: "var identifierTable = func() (t [256]bool) {\n	t = identifierStartTable\n	for c := byte(0); c <= '9'; c++ {\n		t[c] = true\n	}\n	return\n}()\n\nvar identifierTableLit = [256]bool{\n", Why: "computed identifier table that includes the NUL byte"},
@@ -125,8 +129,11 @@ var selfMutants = []selfMutant{
 
 // extra declarations some mutants need (appended to the mutated file)
 var selfMutantAppend = map[string]string{
-	"function parts walked by a helper that receives their addresses (behaviour-preserving)": "\nfunc walkFuncParts(v IVisitor, body *BlockStmt, params *Params) {\n	Walk(v, body)\n	Walk(v, params)\n}\n",
-	"constructor captures package-level memory (variable added below)":                       "\nvar sharedStates = make([]State, 0, 4)\n",
+	"function parts walked by a helper that receives their addresses (behaviour-preserving)":        "\nfunc walkFuncParts(v IVisitor, body *BlockStmt, params *Params) {\n	Walk(v, body)\n	Walk(v, params)\n}\n",
+	"constructor captures package-level memory (variable added below)":                              "\nvar sharedStates = make([]State, 0, 4)\n",
+	"children handed to a callback that walks them (behaviour-preserving)":                          "\nfunc eachASTChild(n *AST, visit func(INode)) {\n	visit(&n.BlockStmt)\n}\n",
+	"children handed to a callback that walks them (behaviour-preserving) ":                         "\nfunc eachASTChild(n *AST, visit func(INode)) {\n	visit(&n.BlockStmt)\n}\n",
+	"callback walks the children with the visitor Walk was called with, not the one Enter returned": "\nfunc eachASTChild(n *AST, visit func(INode)) {\n	visit(&n.BlockStmt)\n}\n",
 }
 
 // engineOnly restricts the cursor engine to one package while self-tests run.
